@@ -43,6 +43,10 @@ Definition tC (l : list Z) : tev := TTrimCols (nats l).
 Definition iTab (md mdc : string) (byrows : bool) (rits cits : list item) (h : list tev) : cin :=
   ITable (unhex md) (unhex mdc) byrows (map fst rits) (map fst cits) h.
 Definition oTab (present order : list Z) : cout := OTable (nats present) (nats order).
+(* reduce groups: g [column values (hex)] (oracle key of the ordering text, as an item) *)
+Definition g (parts : list string) (it : item) : list bytes * key := (map unhex parts, fst it).
+Definition iGrp (md : string) (skind : Z) (gs : list (list bytes * key)) (hs : list (list ev)) : cin :=
+  IGroups (unhex md) (Z.to_nat skind) gs hs.
 Definition oErr : cout := OErr.
 Definition oPanic : cout := OPanic.
 Definition oAx (m : list (list bool)) : cout := OAx m.
